@@ -16,7 +16,7 @@ pub fn def() -> PropDef {
     PropDef {
         id: "C02",
         level: "model_checking",
-        rule: "every sequence (with repetition) of length <= d of (ingress path, entry) steps over the entry universe, each applied to a fresh real replica pre-populated with three bystander entries of a second author; after the last step the full observable state is compared with the reference model and with the from-scratch definition spec(set(sequence)); a further family N places raw entries of four author ids that are byte-order neighbours of a writer whose id ends in 0xFF (just below, at the exact end of its key space, inside the range a lost carry would cover, and beyond) and runs every sequence of <= 2 writes of that writer over keys {'', 0xFF, a} x 2 timestamps x {x, y, DEL} on both ingress paths: the neighbours' entries must be untouched and the removed counts must equal the model; non-trivial = the sequence contains two steps of the same author whose keys are prefix-related (incl. equal)",
+        rule: "life cycle: every sequence of <= 3 (thorough 4) steps over an 18-entry universe plus {remove and re-create the document, ask every question the explorer asks at the end} that contains one of the two; every sequence (with repetition) of length <= d of (ingress path, entry) steps over the entry universe, each applied to a fresh real replica pre-populated with three bystander entries of a second author; after the last step the full observable state is compared with the reference model and with the from-scratch definition spec(set(sequence)); a further family N places raw entries of four author ids that are byte-order neighbours of a writer whose id ends in 0xFF (just below, at the exact end of its key space, inside the range a lost carry would cover, and beyond) and runs every sequence of <= 2 writes of that writer over keys {'', 0xFF, a} x 2 timestamps x {x, y, DEL} on both ingress paths: the neighbours' entries must be untouched and the removed counts must equal the model; non-trivial = the sequence contains two steps of the same author whose keys are prefix-related (incl. equal)",
         assumptions: &[
             "entries differing only in `len` (same hash and timestamp) are outside the alphabet",
             "ed25519 signing is deterministic, so a local insert with the pinned clock yields byte-identical entries to the pre-signed remote entry",
@@ -122,6 +122,18 @@ pub fn run_path(pre: &[Spec], steps: &[Step]) -> (Vec<(&'static str, Value, Stri
         let last = i + 1 == n;
         let before = if last { Some(snapshot(&mut sut, ns)) } else { None };
         let got = apply(&mut sut, st);
+        if matches!(st.path, Path::X | Path::Q) {
+            if st.path == Path::X {
+                // everything offered so far is gone with the removed document
+                model = ModelReplica::default();
+                offered.clear();
+            }
+            if got != Outcome::Inserted(0) {
+                bad.push(("life_cycle_step_ok", json!({"path": st.path}), format!("step {i} {st}: {got:?}")));
+            }
+            outcomes.push(got);
+            continue;
+        }
         let want = model_outcome(&mut model, &st.spec);
         offered.push(st.spec.signed());
         if got != want {
@@ -344,6 +356,35 @@ fn run(ctx: &Ctx, report: &mut Report) {
         }
     }
     run_family_n(ctx, report, &mut ordinal);
+    // life cycle: sequences over a small universe plus {remove and re-create the document, ask
+    // every question}; only the sequences that contain one of the two and end with an entry
+    let u = universe(0, &[0], &[b"", b"a", b"ab"], 2);
+    let depth = if ctx.quick() { 3 } else { 4 };
+    let n = u.len();
+    for d in 2..=depth {
+        for_each_sequence(n + 2, d, |seq| {
+            if !seq.iter().any(|&x| x >= n) || seq[d - 1] >= n {
+                return;
+            }
+            ordinal += 1;
+            if !ctx.mine(ordinal) {
+                return;
+            }
+            let steps: Vec<Step> = seq
+                .iter()
+                .map(|&x| {
+                    if x == n {
+                        Step { path: Path::X, spec: u[0].clone() }
+                    } else if x == n + 1 {
+                        Step { path: Path::Q, spec: u[0].clone() }
+                    } else {
+                        Step { path: Path::R, spec: u[x].clone() }
+                    }
+                })
+                .collect();
+            one(report, &pre, &steps, ordinal);
+        });
+    }
 }
 
 fn run_family_n(ctx: &Ctx, report: &mut Report, ordinal: &mut u64) {
